@@ -117,9 +117,7 @@ def run_chunks(frames, chunks, base, eof_after=True, probes=False):
         older = sim.Session(S, ("127.0.0.1", 10009))
         S.rnd.script = [0x2000]                    # the parked session gets 0x2000; the session under test still gets 0x1000
         older.feed(W.register(b"ctx-oldr"))
-    ss = sim.Session.__new__(sim.Session)
-    # run enip_srv_tcp with the spy as enip_process
-    _start_session(ss, S, ADDR, spy)
+    ss = sim.Session(S, ADDR, enip_process=spy)      # the real enip_srv_tcp with the spy as its request processor
     ends = list(itertools.accumulate(len(f) for f in frames))
     delivered = 0
     stream = b"".join(frames)
@@ -200,29 +198,6 @@ def run_chunks(frames, chunks, base, eof_after=True, probes=False):
     elif older is not None:
         older.close()
     return bad
-
-
-def _start_session(ss, S, addr, enip_process):
-    """like sim.Session.__init__, but with a caller-supplied enip_process (spy)"""
-    import threading
-    sim.patch_recv()
-    ss.sim, ss.addr = S, addr
-    ss.conn = sim.FakeConn("conn%s" % (addr[1],))
-    ss.exc, ss.finished = None, False
-    M = S.M
-
-    def body():
-        try:
-            M.main.enip_srv_tcp(ss.conn, addr, name=ss.conn.name, enip_process=enip_process, **S.kwds)
-        except BaseException as exc:
-            ss.exc = exc
-        finally:
-            ss.finished = True
-            ss.conn.to_harness.release()
-
-    ss.thread = threading.Thread(target=body, daemon=True, name=ss.conn.name)
-    ss.thread.start()
-    ss._wait()
 
 
 def chunkings(frames, tier, three_way_limit):
